@@ -45,10 +45,10 @@ res['demo_cmd'] = demo_cmd
 if demo_cmd:
     rc1, o1 = sh(demo_cmd, cwd=wt, timeout=900)
     res['demo_with_change'] = 'FAIL' if rc1 != 0 else 'pass'
-    sh('git stash -q', cwd=wt)
+    sh('git apply -R /tmp/mut/%s.patch' % name, cwd=wt)
     rc2, o2 = sh(demo_cmd, cwd=wt, timeout=900)
     res['demo_without_change'] = 'pass' if rc2 == 0 else 'FAIL'
-    sh('git stash pop -q', cwd=wt)
+    sh('git apply /tmp/mut/%s.patch' % name, cwd=wt)
     res['demo_tail'] = o1[-300:]
 # remove demo files before running the check / suite
 for d in demos:
